@@ -93,29 +93,102 @@ func safePrimePairRule(P *Program, R *Report) {
 	}
 	// appends to the candidate list are reached only after the test
 	n := 0
+	candD := ""
 	allInstrs(fn, func(i ssa.Instruction) {
 		c, isC := i.(*ssa.Call)
 		if !isC || !isCallTo(c, "builtin:append") {
 			return
 		}
 		n++
+		candD = desc(c.Call.Args[0])
 		r := (&MustPass{P: P, Match: isTest}).MustReach(fn, c)
 		R.decide(rule, kGenPair+":candidates-tested", "a prime is kept as a candidate for q only after passing the same residue test", r.Holds, r.Path, P.Pos(c.Pos()))
 	})
 	R.decide(rule, kGenPair+":candidate-list", "candidate primes are kept for later matching", n >= 1, fmt.Sprintf("%d appends", n), P.Pos(fn.Pos()))
-	mp(P, R, rule, kGenPair+":q-from-findMatch", "(p, q) returned => q is the non-nil result of findMatch(candidates, param, p, ...)", fn, AcceptNonNil(0), &MustPass{Match: func(a Atom) bool {
-		c, _ := callAndResult(a.V)
-		return c != nil && calleeName(c) == kFindM && a.Want == NonNil && c.Call.Args[2] == recv
-	}})
-	okQ := false
-	for _, r := range returnsOf(fn) {
-		if !isNilConst(r.Results[0]) {
-			if c, isC := r.Results[1].(*ssa.Call); isC && calleeName(c) == kFindM {
-				okQ = true
+	inlined := P.Func(kFindM) == nil // the matching loop written out in generateSafePrimePair itself
+	if !inlined {
+		mp(P, R, rule, kGenPair+":q-from-findMatch", "(p, q) returned => q is the non-nil result of findMatch(candidates, param, p, ...)", fn, AcceptNonNil(0), &MustPass{Match: func(a Atom) bool {
+			c, _ := callAndResult(a.V)
+			return c != nil && calleeName(c) == kFindM && a.Want == NonNil && c.Call.Args[2] == recv
+		}})
+		okQ := false
+		for _, r := range returnsOf(fn) {
+			if !isNilConst(r.Results[0]) {
+				if c, isC := r.Results[1].(*ssa.Call); isC && calleeName(c) == kFindM {
+					okQ = true
+				}
 			}
 		}
+		R.decide(rule, kGenPair+":q-returned", "the returned q is findMatch's result", okQ, "", P.Pos(fn.Pos()))
+	} else if recv != nil && candD != "" {
+		// same obligations in the pair function's own terms: q is an element of the candidate list for which
+		// BitLen(p*q) == Ln and p mod 8 != q mod 8 were tested with the received p
+		pT := be.termOf(btState{}, recv)
+		isCand := func(t Term) bool {
+			n := t.opaqueName()
+			return n == candD+"[#i]" || n == candD+"[#j]" || n == candD+"[#k]" || n == candD+"[*]"
+		}
+		mp(P, R, rule, kGenPair+":modulus-length", "(p, q) returned => BitLen(p*q) == Ln was tested on the product of the received p and a candidate", fn, AcceptNonNil(0), &MustPass{Match: func(a Atom) bool {
+			g, ok := parseGuard(a, nil)
+			if !ok || g.Kind != "bitlen" || g.Rel != "==" || !(g.BoundA.String() == "Ln" || g.BoundA.String() == "base.Ln") || g.Call == nil {
+				return false
+			}
+			ts := be.at(g.Call)
+			if len(ts) != 1 || ts[0].Top || len(ts[0].M) != 1 {
+				return false
+			}
+			for _, m := range ts[0].M {
+				if len(m.syms) != 2 || m.coef.Cmp(bigOneM) != 0 {
+					return false
+				}
+				okP, okQ2 := false, false
+				for sname, pw := range m.syms {
+					if pw != 1 {
+						return false
+					}
+					if tsym(sname).equal(pT) {
+						okP = true
+					} else if isCand(tsym(sname)) {
+						okQ2 = true
+					}
+				}
+				return okP && okQ2
+			}
+			return false
+		}})
+		mp(P, R, rule, kGenPair+":residues-differ", "(p, q) returned => p mod 8 != q mod 8 was tested", fn, AcceptNonNil(0), &MustPass{Match: func(a Atom) bool {
+			t0, t1, ok := eqTerms(Atom{Fn: a.Fn, V: a.V, Want: a.Want.neg()}, be)
+			if !ok {
+				return false
+			}
+			for _, pr := range [][2]Term{{t0, t1}, {t1, t0}} {
+				if pr[0].equal(termFn("Mod", pT, tconst(8))) {
+					n := pr[1].opaqueName()
+					for _, sfx := range []string{"[#i]", "[#j]", "[#k]", "[*]"} {
+						if n == "Mod("+candD+sfx+", 8)" {
+							return true
+						}
+					}
+				}
+			}
+			return false
+		}})
+		okQ := false
+		for _, r := range returnsOf(fn) {
+			if isNilConst(r.Results[0]) {
+				continue
+			}
+			okQ = true
+			for d := range phiLeaves(r.Results[1]) {
+				if d != "nil" && !isCand(tsym(d)) {
+					okQ = false
+				}
+			}
+		}
+		R.decide(rule, kGenPair+":q-returned", "the returned q is one of the kept candidates", okQ, "", P.Pos(fn.Pos()))
+	} else {
+		R.bad(rule, kGenPair+":q-source", "q is chosen among kept candidates by findMatch or an equivalent loop", "neither findMatch nor a candidate list was found", P.Pos(fn.Pos()))
 	}
-	R.decide(rule, kGenPair+":q-returned", "the returned q is findMatch's result", okQ, "", P.Pos(fn.Pos()))
 	// prime size
 	okSize := false
 	for _, c := range callsIn(fn) {
@@ -126,7 +199,7 @@ func safePrimePairRule(P *Program, R *Report) {
 	}
 	R.decide(rule, kGenPair+":prime-size", "safe primes of Ln/2 bits are requested", okSize, "", P.Pos(fn.Pos()))
 
-	fm := mustFunc(P, R, rule, kFindM)
+	fm := P.Func(kFindM)
 	if fm == nil {
 		return
 	}
